@@ -16,13 +16,19 @@ for m in rows:
         missed += 1
     body += '| %s | %s | %s | %s | %s |\n' % (m['id'], m['property_broken'], m['needs_to_manifest'].replace('|', '/'),
                                             '; '.join(m['caught_by']), m['history'].replace('|', '/'))
+unclaimed = [m['id'] for m in rows if not m['checks']]
 txt = ('%d seeded changes are kept (each: patch.diff, demo.py, NOTES.md, meta.json under `/verif/seeded/<id>/`). '
-       'All were written by sub-agents that were given only the property text and a scratch worktree (second round: '
-       'plus a one-line description of the first-round seed, to force a different kind of change), and each was '
+       'All were written by sub-agents that were given only the property text and a scratch worktree (from the second '
+       'round on: plus one-line descriptions of the earlier seeds for the same property, to force a different kind of '
+       'change; fifth round: asked to use an anchored file no earlier seed touched; sixth round: told the bounds of '
+       'the small-scope enumeration and asked for a change that only shows beyond them), and each was '
        're-confirmed with `tools/verify_seed.sh` (applies, pinned tests unchanged, demo fails with / passes without). '
-       '%d of them were missed by the first version of the checks; every miss was traced to a feature absent from '
-       'the explored alphabet (never to the oracle), the alphabet was widened, and all %d are now reported on every '
-       'run (`tools/run_seeded.sh <id>` exits with a VIOLATION line).\n\n' % (len(rows), missed, len(rows)))
+       '%d of them were missed by the checks as they stood when the seed arrived; every miss was traced to a feature '
+       'or a size absent from the explored alphabet (never to the oracle), the alphabet was widened, and %d are now '
+       'reported on every run (`tools/run_seeded.sh <id>` exits with a VIOLATION line; `tools/regress_seeds.sh` '
+       're-runs them all).  Not reported, by decision: %s (see its row).  Nine meaning-preserving refactorings '
+       'are kept next to them (`seeded/benign/`, Section 9).\n\n'
+       % (len(rows), missed, len(rows) - len(unclaimed), ', '.join(unclaimed) or 'none'))
 open(os.path.join(HERE, 'seeded', 'RESULTS.md'), 'w').write('# Seeded property-breaking changes\n\n' + txt + head + body)
 d = open(os.path.join(HERE, 'DESIGN.md')).read()
 i = d.index('## 10. Seeded changes and which checks catch them')
